@@ -11,7 +11,7 @@ for l in open(log):
 out = ['# Seeded changes against the quick checks', '',
        'One row per confirmed seeded change (`seeded/<id>/`): the quick check of the property the change was written for, run with the change applied to `/repo` (`tools/seed_matrix.sh`, table made by `tools/gen_matrix.py`).',
        '`reported by`: **obligation** = a named proof obligation that is discharged on the unchanged tree failed; **oracle** = the concrete oracle (bounded stand-in) found a deviating input on the real code; `(+engine rejects)` = the changed function left the handled subset or its contract (checker error), `(+undecided)` = some obligation could no longer be decided; in both cases only the oracle could speak for that part.',
-       'Variants a, b: first round of seeding; c, d: second round; e, f: third round (DESIGN 9.5).', '',
+       'Variants a, b: first round of seeding; c, d: second round; e, f: third round; g, h: fourth round (DESIGN 9.5).', '',
        '| seed | what it changes (from the agent\'s notes) | exit | reported by | first report |', '|---|---|---|---|---|']
 n_ok = 0
 for sid, r in rows:
